@@ -7,6 +7,8 @@ revision into one table that the object loader consults. Decided:
  R2 first-writer-wins: every write into a merged map inside the chain loop is an
     `entry().or_insert*`/vacant insert or is dominated by a `!contains_key` test — with
     newest-first order this is "newest wins".
+    The same holds for the scalar fields of the merged table (trailer, xref_offset): assigned only on
+    the vacancy edge of an `is_none()` test on the merged table.
  R3 one key space: the loader consults the compressed-object map before the plain map, so the two
     maps are one key space; an older revision may therefore only contribute a compressed entry for
     an object number that no newer revision has defined in *either* map. Every write into the merged
@@ -148,6 +150,36 @@ def run(ctx):
                 ctx.ok("R2", key, "insert dominated by a vacancy test (!contains_key / Entry::Vacant) for the same key", fn.where(b))
         else:
             ctx.undecided_site("R2", key, "mutation %s of a merged map" % name, fn.where(b))
+    # R2b scalar fields of the merged table (trailer, xref_offset, ...): inside the newest-first loop a plain assignment to a
+    # field of the merged table must be a first-writer-wins write too, i.e. reached only through the vacancy edge of an
+    # `is_none()` test on a field of the merged table (the first = newest revision sets it, older ones must not overwrite it)
+    vac_edges = []
+    for bb, cc, aa, dd in L.calls_to(fn, ["Option::<T>::is_none", "Option::<T>::is_some"]):
+        r = L.recv_of(fn, aa)
+        if bb in body and r and r[0] in merged and dd:
+            te, fe = L.bool_edges(fn, dd[0])
+            vac_edges += te if L.short(cc["p"]) == "is_none" else fe
+    nfield = 0
+    seenf = set()
+    for b in sorted(body):
+        for st in fn.blocks[b][0]:
+            pl = st[1]
+            if pl[0] in merged and pl[1]:
+                fs = [p[2] for p in pl[1] if isinstance(p, list) and p[0] == "f" and p[2]]
+                if not fs or fs[0] in ("entries", "extended_entries") or fs[0] in seenf:
+                    continue
+                seenf.add(fs[0])
+                nfield += 1
+                key = "merge:field:%s:first-writer-wins" % fs[0]
+                w = CF.must_pass(fn, [b], [], guard_edges=vac_edges, start=header) if vac_edges else [header, b]
+                if w is None:
+                    ctx.ok("R2", key, "assigned only on the vacancy edge of an is_none() test on the merged table", fn.where(b))
+                else:
+                    ctx.violation("R2", key, "merged.%s is assigned on every iteration of the newest-first chain loop: the value of the "
+                                  "*oldest* revision wins (for xref_offset: incremental writers then chain their /Prev to the original "
+                                  "section and every revision in between is orphaned)" % fs[0], fn.where(b),
+                                  {"path_lines": [fn.line(x) for x in w][:10]})
+    ctx.floor("R2", "scalar fields of the merged table assigned in the chain loop", nfield, 2)
     # R3 one key space
     ext_writes = [(b, c, a, d) for b, c, a, d in writes if (L.recv_of(fn, a)[1] or ["?"])[0] == "extended_entries"
                   and L.short(c["p"]) in ("insert", "entry", "extend")]
